@@ -56,7 +56,7 @@ def run_c02(res, rng):
     def proj(c, lines):
         return ['N ' + l.split()[1] for l in lines if l.startswith('N ')] + anomalies(lines)
     correspondence(res, cases, proj, D.judge_c02, 'memory safety / termination of decode')
-    res.cov['rule'] = ('sequences of 1-20 buffers on one decoder: random bytes, 0x00-led buffers, TECMP samples of every kind and CMP frames (valid, inconsistent inner lengths, segment chains), each mutated by truncation, byte corruption, length/type/flag field +-1/0/0xFF, appended bytes; every truncation of sample frames; TECMP status messages cut at every length with their inner length word made consistent with the cut; 64 KiB buffers; accepted segment chains whose total payload is 65519..131070 bytes; histories in which 32767 / 65534..65536 (thorough: up to 131071) reassemblies of another endpoint are opened and released between the abort of an endpoint\'s reassembly and a stray continuation segment of it. '
+    res.cov['rule'] = ('sequences of 1-20 buffers on one decoder: random bytes, 0x00-led buffers, TECMP samples of every kind and CMP frames (valid, inconsistent inner lengths, segment chains), each mutated by truncation, byte corruption, length/type/flag field +-1/0/0xFF, appended bytes; every truncation of sample frames; TECMP status messages cut at every length with their inner length word made consistent with the cut; 64 KiB buffers; accepted segment chains whose total payload is 65519..131070 bytes; histories in which 32767 / 65534..65536 (thorough: also 32768 and 131071) reassemblies of another endpoint are opened and released between the abort of an endpoint\'s reassembly and a stray continuation segment of it. '
                        'Each input is copied to an exact-size heap block that is poisoned and freed before results are read; results are re-read after all decoders are destroyed (ASan+UBSan build). non-trivial = distinct buffers of >= 24 bytes')
     res.cov['distinct_nontrivial'] = nontrivial_frames(cases)
     res.cov['input_distribution'] = frame_stats(cases)
@@ -93,7 +93,7 @@ def run_c05(res, rng):
     cases += D.slow_and_busy_cases(rng.fork('slow'), 'sb', res.tier == 'thorough')
     cases += D.pigeonhole_cases(rng.fork('ph'), 'ph', res.tier == 'thorough')
     correspondence(res, cases, proj_nk, D.judge_ref, 'reassembly under interleaving')
-    res.cov['rule'] = 'histories = random merges of 1-4 (quick) / 1-8 (thorough) endpoint streams (some sharing a device id), each a sequence of well-formed chains (2-6 segments, sizes 0..77, start counters incl. 65534/65535/0, 1/3 of the segments followed by trailing bytes, later segments with different header fields) and unsegmented frames; plus 20 chains of 6-40 segments across the wrap; chains whose total payload is 65519/65520/65535/65536/70000/72000/131070 bytes (few large or 47 MTU-sized segments); pairs of endpoints that collide under xor/or/add/truncation foldings of (device, stream) with chains in flight at the same time; 255..513 (thorough: 4097) endpoints with a reassembly pending simultaneously; pigeonhole histories: 800-1024 (thorough: up to 70000) endpoints pending at once (birthday-sized for side structures of up to 2^16 slots) (dense device x stream block, random, one stream x consecutive devices), half completed or aborted, every survivor then aborted + stray continuation or completed. non-trivial = distinct frames >= 24 bytes'
+    res.cov['rule'] = 'histories = random merges of 1-4 (quick) / 1-8 (thorough) endpoint streams (some sharing a device id), each a sequence of well-formed chains (2-6 segments, sizes 0..77, start counters incl. 65534/65535/0, 1/3 of the segments followed by trailing bytes, later segments with different header fields) and unsegmented frames; plus 20 chains of 6-40 segments across the wrap; chains whose total payload is 65519/65520/65535/65536/70000/72000/131070 bytes (few large or 47 MTU-sized segments); pairs of endpoints that collide under xor/or/add/truncation foldings of (device, stream) with chains in flight at the same time; 255..513 (thorough: 4097) endpoints with a reassembly pending simultaneously; pigeonhole histories: 800-1024 (thorough: up to 6000) endpoints pending at once (birthday-sized for side structures of up to 2^16 slots) (dense device x stream block, random, one stream x consecutive devices), half completed or aborted, every survivor then aborted + stray continuation or completed. non-trivial = distinct frames >= 24 bytes'
     res.cov['distinct_nontrivial'] = nontrivial_frames(cases)
     res.cov['input_distribution'] = frame_stats(cases)
     res.cov['samples'] = [sample_case(c) for c in cases[:2]]
@@ -144,7 +144,7 @@ def run_c18(res, rng):
     cases = corpus_cases('C18') + [D.gen_c18(rng.fork('i%d' % i), 'i%d' % i) for i in range(n)]
     cases += [D.with_projections(c) for c in D.alias_cases(rng.fork('alias'), 'alias', 150 if res.tier == 'quick' else 6000)]
     cases += [D.with_projections(c) for c in D.many_endpoint_cases(rng.fork('many'), 'many', False)[:3]]
-    cases += [D.with_projections(c) for c in D.pigeonhole_cases(rng.fork('ph'), 'ph', res.tier == 'thorough', sizes=None if res.tier == 'thorough' else [('dense', 1024), ('random', 1000)])]
+    cases += [D.with_projections(c) for c in D.pigeonhole_cases(rng.fork('ph'), 'ph', False, sizes=[('dense', 1024), ('random', 1000)] + ([('devs', 800), ('dense', 2048)] if res.tier == 'thorough' else []))]
     correspondence(res, cases, proj_nk, D.judge_c18, 'endpoint isolation')
     res.cov['rule'] = 'histories as in C17 over 2-4 endpoints (incl. same device/other stream) plus endpoint pairs that collide under xor/or/add/truncation foldings of (device, stream); the same decoder run is repeated per endpoint on the projection of the history to that endpoint\'s frames (fresh decoder each); pigeonhole histories (1000-1024 endpoints pending at once, half released, survivors aborted + stray continuation or completed); judge: packets delivered for e in the interleaved run == packets of the projected run, on the implementation. non-trivial = distinct frames >= 24 bytes'
     res.cov['distinct_nontrivial'] = nontrivial_frames(cases)
